@@ -59,9 +59,18 @@ def compareSizes (l r : UInt8) : Rel :=
 /-- rs: block.rs `block_size::cmp` -/
 def cmp (l r : UInt8) : Ordering := compare l r
 
+/-- canonical decimal digits (ASCII) of a natural number, most significant first (fuel 20 ≥ digits of u64) -/
+def decDigitsAux : Nat → Nat → List UInt8 → List UInt8
+  | 0, _, acc => acc
+  | fuel + 1, n, acc =>
+    let acc := (48 + n % 10).toUInt8 :: acc
+    if n / 10 = 0 then acc else decDigitsAux fuel (n / 10) acc
+
+def decDigits (n : Nat) : List UInt8 := decDigitsAux 20 n []
+
 /-- rs: block.rs `BLOCK_SIZES_STR[n]` as bytes: canonical decimal of `3·2^n`
     (the strings observed from the compiled crate are proved equal in `FfuzzyProofs/Tables.lean`) -/
-def str (n : UInt8) : List UInt8 := (toString (3 * 2 ^ n.toNat)).toUTF8.toList
+def str (n : UInt8) : List UInt8 := decDigits (3 * 2 ^ n.toNat)
 
 def MAX_BLOCK_SIZE_LEN_IN_CHARS : Nat := 10
 
